@@ -192,7 +192,7 @@ func reduceDecCase(t *mon.T) {
 
 func runC19(r *mon.Run) {
 	r.Rule = "NumDigits: every bit length 1..130 at 2^k-1, 2^k and at the decimal borders 10^j-1, 10^j, 10^j+1 inside it, both signs; " +
-		"10^j-1/10^j/10^j+1 for j up to thousands; random values up to tens of thousands of bits; oracle = length of the decimal text of |b|. " +
+		"10^j-1/10^j/10^j+1 for every j up to 6000 (quick, plus 300 sampled j up to 101000) / 101000 (thorough) and for twelve giant j from 150000 to 524288; random values up to tens of thousands of bits; oracle = length of the decimal text of |b|. " +
 		"Reduce: coefficients with 0..3000 trailing zeros (uint64 and big paths), zeros of any exponent, values whose rounding carries " +
 		"into a power of ten or rounds to zero; two destination pre-states per call. distinct_nontrivial = distinct integers with " +
 		"|b| >= 2^64, negative, or at a decimal border; for Reduce, operands with at least one stripped zero or a rounding."
@@ -211,11 +211,21 @@ func runC19(r *mon.Run) {
 			}
 		}
 	})
-	maxJ := r.N(6000, 15000)
+	maxJ := r.N(6000, 101000)
 	r.Parallel("nd-pow10", maxJ, func(t *mon.T) {
 		pow10Check(t, t.Index+1)
 	})
 	r.Extra("numdigits_powers_of_ten_up_to", maxJ)
+	if r.Quick() {
+		// a sample of the larger lengths (estimates of bits*log10(2) drift with size)
+		r.Parallel("nd-pow10-sampled", 300, func(t *mon.T) { pow10Check(t, t.Rng.Range(6001, 101000)) })
+	}
+	// integers far beyond anything a Decimal can hold (NumDigits takes any BigInt)
+	r.Parallel("nd-giant", 12, func(t *mon.T) {
+		j := []int64{150000, 199999, 200000, 200001, 200063, 200064, 200065, 200200, 262144, 300000, 400000, 524288}[t.Index]
+		pow10Check(t, j)
+		t.Count("numdigits/giant")
+	})
 	r.Parallel("nd-random", r.N(60000, 2000000), func(t *mon.T) {
 		var bits int
 		switch t.Rng.Pick(40, 30, 20, 8, 2) {
